@@ -25,8 +25,8 @@ def run(ctx):
                        "inputs rejected by date() (ValueError etc.) are not judged here (C35)"]
     q = ctx.quick
     cc.model_check(ctx, "c01_j1", invariants=["Strict", "AtLeastPlus", "Exact"], N=4, T=2 if q else 3,
-                   iters=[0, 1] if q else [0, 1, 2], eps=[0, 1], max_edges=4 if q else 5)
-    insts = cc.generate(ctx, "c01_j2", N=3 if q else 4, T=2, iters=[0, 1], eps=[0, 1], max_edges=3 if q else 4)
+                   iters=[0, 1] if q else [0, 1, 2], eps=[0, 1, 2], max_edges=4 if q else 5)
+    insts = cc.generate(ctx, "c01_j2", N=3 if q else 4, T=2, iters=[0, 1], eps=[0, 1, 2], max_edges=3 if q else 4)
     cap = 1200 if q else 20000
     ctx.exhaustive = len(insts) <= cap
     if len(insts) > cap:
@@ -42,7 +42,7 @@ def run(ctx):
         if not q:
             corpus.append(inputs.scaled(base[(i + 3) % len(base)], c))
     settings = [{}, {"min_branch_length": 1e-12}, {"min_branch_length": 1.0, "constr_iterations": 2},
-                {"rescaling_intervals": 0, "singletons_phased": False}]
+                {"rescaling_intervals": 0, "singletons_phased": False}, {"min_branch_length": 200.0}]
     if not q:
         settings += [{"constr_iterations": 0}, {"constr_iterations": 100}, {"max_iterations": 2},
                      {"rescaling_intervals": 5, "min_branch_length": 1e-3}]
